@@ -1,5 +1,6 @@
 SPECIFICATION Spec
 CONSTANTS
+  Dim = 2
   MaxNodes = 2
   MinNodes = 1
   Widths = {3}
@@ -12,12 +13,16 @@ CONSTANTS
   AllowPool = TRUE
   AllowAdd = TRUE
   AllowDw = TRUE
+  AllowReuse = FALSE
   TupMode = "one"
   WType = "pl"
   SelMode = "rot"
+  MaxHist = 0
+  Walk = "pinned"
   Lin = "fixed"
   GuardF40 = FALSE
   GuardF05 = TRUE
+  GuardReuse = TRUE
 INVARIANT InvRepIsRep
 INVARIANT InvPlumb
 INVARIANT InvPlumbGroups
